@@ -198,10 +198,31 @@ class Sched:
         return n
 
 
-def explore(run_one, bound, max_execs=None, on_exec=None):
+def children(x, bound, start=0):
+    """the schedules that deviate from execution x at exactly one point at or after `start` within the preemption bound"""
+    out = []
+    pre = 0
+    costs = []
+    for (k, c, cur_enabled) in x.points:
+        costs.append(pre)
+        if cur_enabled and c != 0:
+            pre += 1
+    for i in range(len(x.points) - 1, start - 1, -1):
+        k, c, cur_enabled = x.points[i]
+        for alt in range(k - 1, 0, -1):
+            if alt == c:
+                continue
+            if costs[i] + (1 if cur_enabled else 0) > bound:
+                continue
+            out.append(x.choices[:i] + [alt])
+    return out
+
+
+def explore(run_one, bound, max_execs=None, on_exec=None, roots=None):
     """Iterative-context-bounding DFS.  run_one(prefix) -> Sched (already run).
-    Enumerates every schedule with at most `bound` preemptions.  Returns (#executions, capped)."""
-    stack = [[]]
+    Enumerates every schedule with at most `bound` preemptions (below the given root prefixes, default: all).
+    Returns (#executions, capped)."""
+    stack = [list(r) for r in roots] if roots is not None else [[]]
     n = 0
     while stack:
         prefix = stack.pop()
